@@ -33,7 +33,7 @@ func lockDiscipline(r *Run, rule, pkg, typ, mtxField string, guarded []string, e
 	// methods/functions of the package
 	var fns []*ssa.Function
 	for _, fn := range P.RepoFns {
-		if fn.Pkg != nil && short(fn.Pkg.Pkg.Path()) == pkg {
+		if fn.Pkg != nil && short(fn.Pkg.Pkg.Path()) == pkg && !isNewHelperFn(fn) {
 			fns = append(fns, fn)
 		}
 	}
@@ -174,7 +174,7 @@ func checkC15(r *Run) {
 		if fn.Pkg == nil || short(fn.Pkg.Pkg.Path()) != "store/cachekv" {
 			continue
 		}
-		Instrs(fn, func(in ssa.Instruction) {
+		InstrsRaw(fn, func(in ssa.Instruction) {
 			ci, ok := in.(ssa.CallInstruction)
 			if !ok || !ci.Common().IsInvoke() {
 				return
@@ -277,7 +277,7 @@ func checkC15(r *Run) {
 		if fn.Pkg == nil || short(fn.Pkg.Pkg.Path()) != "store/cachekv" {
 			continue
 		}
-		Instrs(fn, func(in ssa.Instruction) {
+		InstrsRaw(fn, func(in ssa.Instruction) {
 			mu, ok := in.(*ssa.MapUpdate)
 			if !ok {
 				return
